@@ -99,14 +99,14 @@ def main(ctx):
     real_kernel(ctx)
 
 
-OBS_INV = ['InOrderIntact', 'AllDelivered', 'NothingInvented', 'CleanEnd', 'TornReported']
+OBS_INV = ['InOrderIntact', 'AllDelivered', 'NothingInvented', 'CleanEnd', 'TornReported', 'NoEarlyEnd']
 
 
 def real_kernel(ctx):
     """binding B: real pipes and socket pairs between two processes, judged by ConnObs.tla"""
     from lib import monitor, sandbox
     scale = sandbox.time_scale()
-    rc, data, log = sandbox.run_driver('harness.conn_main', [ctx.tier], timeout=400 * scale,
+    rc, data, log = sandbox.run_driver_patient('connection', 'harness.conn_main', [ctx.tier], timeout=400 * scale,
                                        env={'VERIF_TIME_SCALE': str(scale)})
     if rc != 0 or data is None:
         sandbox.driver_failed('connection', rc, log)
